@@ -197,6 +197,18 @@ func runCanariesImpl(dir string) string {
 			}
 		})
 	}
+	// a call through an interface is attributed to the concrete gleece implementation
+	{
+		found := false
+		for _, cl := range w.callersOf(nameIs("(*" + canaryPkg + ".memSink).Put")) {
+			if strings.HasSuffix(fnShort(cl.Parent()), ".ViaInterface") {
+				found = true
+			}
+		}
+		if !found {
+			fails = append(fails, "whocalls: the interface call in ViaInterface was not attributed to (*memSink).Put")
+		}
+	}
 	// pure helpers
 	if octalOnly(`^(0?[0-7]{3})?$`) != "" {
 		fails = append(fails, "regex-lang: the shipped permission pattern is rejected")
